@@ -24,6 +24,15 @@ type HostSpec struct {
 	Rack    string   `json:"rack"`
 	Tokens  []string `json:"tokens"`
 	Version string   `json:"version"` // release_version
+	Peer    string   `json:"peer,omitempty"` // node-to-node address (system.peers.peer / system.local.broadcast_address); "" = IP
+}
+
+// PeerAddr is the node-to-node address the cluster reports for the host.
+func (h HostSpec) PeerAddr() string {
+	if h.Peer != "" {
+		return h.Peer
+	}
+	return h.IP
 }
 
 func (h HostSpec) Key() string { return net.JoinHostPort(h.IP, strconv.Itoa(h.Port)) }
@@ -411,7 +420,7 @@ func (n *Node) LocalRow() *cqlspec.Response {
 		col("local", "listen_address", cqlspec.Inet), {Keyspace: "system", Table: "local", Name: "tokens", Type: setText},
 		col("local", "schema_version", cqlspec.UUID), col("local", "cql_version", cqlspec.Varchar)}
 	row := []cqlspec.Value{text("local"), text(s.DC), text(s.Rack), uuidV(s.HostID), text(s.Version), text("vcluster"), text(n.Partitioner),
-		inetV(s.IP), inetV(s.IP), inetV(s.IP), tokensV(s.Tokens), uuidV("00000000000010008000000000000001"), text("3.4.4")}
+		inetV(s.PeerAddr()), inetV(s.IP), inetV(s.IP), tokensV(s.Tokens), uuidV("00000000000010008000000000000001"), text("3.4.4")}
 	return RowsResponse(cols, [][]cqlspec.Value{row})
 }
 
@@ -437,7 +446,7 @@ func (n *Node) PeersRows() *cqlspec.Response {
 		if len(t.Tokens) == 0 {
 			toks = cqlspec.NullValue()
 		}
-		rows = append(rows, []cqlspec.Value{inetV(t.IP), dc, rack, uuidV(t.HostID), text(t.Version), inetV(t.IP), cqlspec.NullValue(), toks,
+		rows = append(rows, []cqlspec.Value{inetV(t.PeerAddr()), dc, rack, uuidV(t.HostID), text(t.Version), inetV(t.IP), cqlspec.NullValue(), toks,
 			uuidV("00000000000010008000000000000001")})
 	}
 	return RowsResponse(cols, rows)
